@@ -505,13 +505,17 @@ type requestSender struct {
 }
 
 func (r *requestSender) Send(writer io.Writer) error {
+	// The request's frame can be in the process of being sent on another connection (a retry after that connection was
+	// closed), so the stream ID is set on a copy of the header instead of the shared one.
 	switch frm := r.request.Frame().(type) {
 	case *frame.Frame:
-		frm.Header.StreamId = r.stream
-		return r.conn.codec.EncodeFrame(frm, writer)
+		hdr := *frm.Header
+		hdr.StreamId = r.stream
+		return r.conn.codec.EncodeFrame(&frame.Frame{Header: &hdr, Body: frm.Body}, writer)
 	case *frame.RawFrame:
-		frm.Header.StreamId = r.stream
-		return r.conn.codec.EncodeRawFrame(frm, writer)
+		hdr := *frm.Header
+		hdr.StreamId = r.stream
+		return r.conn.codec.EncodeRawFrame(&frame.RawFrame{Header: &hdr, Body: frm.Body}, writer)
 	default:
 		return errors.New("unhandled frame type")
 	}
